@@ -165,6 +165,7 @@ void harness(void) {
     pctx.entropy_coding_input_fifo_ptr = &f_in; pctx.rate_control_tasks_output_fifo_ptr = &f_rc; pctx.picture_manager_input_fifo_ptr = &f_pm;
     tctx.priv = &pctx;
     for (int i = 0; i <= K; i++) { w_out[i].object_ptr = &outbuf[i]; }
+    for (int i = 0; i < K; i++) { w_rc[i].object_ptr = &rct[i]; w_pm[i].object_ptr = &pmr[i]; }
     /* GOP shape: each TU = hidden* shown; a shown picture may carry has_show_existing iff a hidden one is outstanding (<=1 outstanding) */
     int nd = 0; int64_t hidden_pts = 0; int hidden_idx = -1; int64_t next_pts = (int64_t)vin_range(0, 1000);
     int64_t pts_of[K];
